@@ -85,9 +85,9 @@ Full == CASE E.op = "read"     -> ExpRead(body, pos, E.n)
           [] OTHER             -> rest
 DClauses == <<
    <<"D:closed", closed /\ ~W /\ ~Raised /\ E.op # "close">>,
-   <<"D:len",    ~Raised /\ IsData /\ E.op \notin {"readlines", "iterall"} /\ ~(W /\ T.short /\ E.op = "read")
+   <<"D:len",    ~Raised /\ ~closed /\ IsData /\ E.op \notin {"readlines", "iterall"} /\ ~(W /\ T.short /\ E.op = "read")
                  /\ E.res # Full>>,
-   <<"D:lines",  ~Raised /\ E.op \in {"readlines", "iterall"}
+   <<"D:lines",  ~Raised /\ ~closed /\ E.op \in {"readlines", "iterall"}
                  /\ E.lines # ExpReadLines(body, pos, IF E.op = "iterall" THEN -1 ELSE E.n)>>,
    <<"D:recv",   ~W /\ E.recv # ExpRecv>> >>
 
